@@ -39,6 +39,9 @@ def driver_A():
         # the old value of a vector global is kept in a local while the global is assigned (the local must not follow the global)
         func("keepold", [("int", "d")], "float", [("decl", F4, "old", V("gv")), ASG(V("gv"), B("*", V("gv"), lit(2.0))), ASG(IDX(V("gv"), 0), lit(9.0)),
                                                  ("ret", B("+", IDX(V("old"), V("d")), B("*", IDX(V("gv"), V("d")), lit(100.0))))]),
+        # a function without a result whose body falls off its end (no return instruction), invoked by the host and called from a function
+        func("voidbump", [("int", "d")], "void", [ASG(V("counter"), B("+", B("+", V("counter"), V("d")), lit(1))), wrap(V("counter"), 2)]),
+        func("callsvoid", [("int", "d")], "int", [("expr", ("call", "voidbump", [V("d")])), ("expr", ("call", "voidbump", [lit(0)])), ("ret", V("counter"))]),
         # helper chains two calls deep: the middle function touches no global itself, the innermost one reads / writes one
         func("rd", [("int", "d")], "int", [("ret", B("+", B("*", V("counter"), lit(10)), V("d")))], export=False),
         func("mid", [("int", "d")], "int", [("ret", B("+", ("call", "rd", [V("d")]), lit(1)))], export=False),
